@@ -256,7 +256,6 @@ def damaged_tree(kind, which, x):
   return False
 
 
-@with_rng_stub
 class Branch(nn.Module):
   inner: nn.Module
 
@@ -296,6 +295,7 @@ def shared_between_parents(x, w):
   return plain(uv) == vs and unbound.apply(uv, x) == expw
 
 
+@with_rng_stub
 def setup_style(x, w):
   """setup-style modules: attribute names (and list indices) are the tree keys;
   bind()/unbind round trip"""
